@@ -217,141 +217,6 @@ PROPS["C08"] = dict(
     level_note='Trusted: Coq kernel + vm_compute; the hand-written small-step model of event_bus.go / persistEvent (flat registry; sync.Mutex, RWMutex, WaitGroup, atomic CAS, goroutine creation and recover are modelled as atomic micro-steps); the controller harness (parks goroutines at user-code callbacks, reads goroutine states from runtime.Stack) and the replay of its log on the model (Bus/BusRun.v); the oracle Corr/BusOracle.v; interleavings strictly inside bus code are not forced by the controller.',
     rule='cases = seeded random programs (threads, handler/filter/hook bodies that call back into the bus, options) run on the real bus under the controller with a seeded random schedule; every run is replayed on the Coq model along the controller log and judged by the oracle; directed witness programs run first; C08: one goroutine, every subset of the four hook slots, 70% of publishes on cancellable contexts, cancel actions in handler/hook/filter bodies; non-trivial = every case; distinct = distinct program+schedule',
 )
-PROPS["C10"] = dict(
-    title="Every bundled store behaves as one append-only, resumable log",
-    theorems="Properties/C10.v",
-    proof_files=["Store/Lex.v", "Store/StoreModel.v", "Store/StoreProofs.v", "Properties/C10.v"],
-    suites=[dict(name="storemem", mod="core", family="storemem", corr="Corr.CorrStore", check="check10_mem", shard=50),
-            dict(name="storesqlitefile", mod="core", family="storesqlitefile", corr="Corr.CorrStore", check="check10_sq", shard=20,
-                 env={"VERIF_TMP": "/verif/.build/tmp"}),
-            dict(name="storesqlitemem", mod="core", family="storesqlitemem", corr="Corr.CorrStore", check="check10_sq", shard=20),
-            dict(name="storeds", mod="core", family="storeds", corr="Corr.CorrStore", check="check10_ds", shard=20)],
-    level_text="Proved in Coq, for every state reachable by appends and every position/limit: MemoryStore offsets are the "
-               "zero-padded counter and increase lexicographically (digits_lex, counter < 10^20); Read(o,n) from oldest or "
-               "any issued offset returns exactly the first n (all if n<=0) later events and a next offset denoting the "
-               "position after them; ReadStream equals Read; any chain of reads over a store meeting that read "
-               "specification returns a gap-free, repeat-free segment and an empty read means the end (generic chain "
-               "theorem, instantiated for memory and SQLite); SQLite positions strictly increase numerically, never "
-               "repeat, and decimal offsets round-trip (parse . format = id up to 2^63-1); saved subscription offsets "
-               "are returned per id; operations on one store value leave the other unchanged. Refuted by computation "
-               "(known findings): SQLite offsets are not lexicographic at 9->10; the durable-streams store breaks the "
-               "read/next/event-offset clauses (three witnesses). Each store model is tied to the code by differential "
-               "runs of random Append/Read/ReadStream/SaveOffset/LoadOffset histories on two separately created stores; "
-               "an independent oracle (also in Coq) judges every observed history against the property.",
-    level_note="Trusted: Coq kernel + vm_compute; hand-written models of MemoryStore, SQLiteStore (five SQL statements with "
-               "SQL semantics; AUTOINCREMENT) and the durable-streams store over the in-memory server; payload "
-               "identity (type, canonical JSON, instant) is matched by the harness, the models treat payloads as "
-               "opaque ids; strconv/fmt are modelled by dec/parse_int/pad; saving the empty offset on SQLite returns "
-               "\"0\" (same position) and is excluded from generation; harness and printer.",
-    rule="cases = seeded random histories (8-38 ops, thorough up to 88) of Append/Read/ReadStream/SaveOffset/LoadOffset on two "
-         "separately created stores of the same kind (memory; SQLite file; SQLite :memory:; durable-streams over an "
-         "in-process server with 1/2/3/5/unlimited messages per chunk), limits from {-1,0,1,2,3,n-1,n,n+1,100}, resume points "
-         "from every returned next/event offset plus never-issued offsets, payloads with unicode types, nested JSON, "
-         "timestamps in UTC/Local/fixed zones incl. unusual zone names, years 1..9999, nanoseconds; a directed case "
-         "crosses 9->10->12 appends and chains reads with limits 1,2,5,0; non-trivial = some read hit its limit or "
-         "resumed from a non-empty offset; distinct = distinct operation history",
-    assumptions=["SQLite executes each prepared statement with SQL semantics", "the durable-streams server used is the in-memory reference storage"],
-)
-
-PROPS["C11"] = dict(
-    title="Replay delivers every event after the offset, or says that it did not",
-    theorems="Properties/C11.v",
-    proof_files=["Store/ReplayModel.v", "Store/ReplayProofs.v", "Store/StoreProofs.v", "Properties/C11.v"],
-    suites=[dict(name="replay", mod="core", family="replay", corr="Corr.CorrReplay", check="check11",
-                 env={"VERIF_TMP": "/verif/.build/tmp"})],
-    level_text="Proved in Coq for every log, start offset, batch size >= 1 and fault (callback failure, cancellation, "
-               "row-fetch error, failing Read call): each Replay path (MemoryStore stream, SQLite cursor stream, SQLite "
-               "batched stream, paged fallback over any store meeting C10's read specification) hands the callback a "
-               "gap-free, duplicate-free prefix in log order and returns nil only if that prefix is everything; the "
-               "paged and batched loops terminate within remaining+2 iterations (fuel sufficiency). Tied to persist.go "
-               "and stores/sqlite/store.go by differential runs over (store x configuration x batch x length x start x "
-               "fault kind x fault position), with SQLite row errors injected through the verif-tagged opener hook.",
-    level_note="Trusted: Coq kernel + vm_compute; hand-written models of Replay, ReadStream, streamRows/streamBatched/"
-               "streamBatch; database/sql closes the rows of a cancelled query (the harness waits for that before the "
-               "callback returns, making it deterministic); the fault-injecting driver wraps modernc sqlite through "
-               "the non-context driver interfaces; harness and printer. Replay's purity (no append, no handler) is a "
-               "typing fact of the model and is observed, not proved.",
-    rule="cases = seeded tuples (store kind in {memory stream, memory paged, SQLite stream, SQLite batched, durable-streams "
-         "paged}, batch in {1,2,3,rem-1,rem,rem+1,100,default}, server chunk in {1,2,3,5,unlimited}, log length 0-13 "
-         "(thorough 0-25), start position, fault in {none, callback fails at i, context cancelled at i, row fetch fails at "
-         "k, j-th Read fails}); 8 directed cases first; non-trivial = at least 2 events remain after the start offset; "
-         "distinct = distinct input tuple",
-)
-
-PROPS["C01"] = dict(
-    title='Publish reaches exactly the subscribed handlers, once each, in order',
-    theorems="Properties/C01.v",
-    proof_files=["Bus/BusModel.v", "Bus/BusRun.v", "Bus/BusInv.v", "Properties/C01.v"],
-    suites=[dict(name="bus01", mod="core", family="bus01", corr="Corr.BusOracle", check="check_bus", shard=25), dict(name="busseq", mod="core", family="busseq", corr="Corr.BusOracle", check="check_bus", shard=25), dict(name="busstress", mod="core", family="busstress", corr="Corr.CorrStress", check="check_stress01", shard=150)],
-    level_text="Proved in Coq on the small-step model, for every state/program/routing function: the snapshot step queues exactly the registrations of the published type at that step, in subscription order, each once, never another type's; the per-registration decisions (filter, once-claim, cancellation) are exact; Subscribe appends one registration to its own type only; Unsubscribe removes exactly the first registration of the function or reports not-found and changes nothing; Clear empties exactly its type; each shard step of ClearAll empties exactly the types routed there, for ANY routing; HasHandlers/HandlerCount return the registry's size. Re-entrant calls are ordinary later steps. The model is tied to event_bus.go by replaying controller-driven runs of random re-entrant programs over up to 40 event types (> 32 shards), all option combinations and any-typed publishes; an oracle with its own flat registry judges every observed run (exact snapshot membership, order of sync handlers, filters, exactly-once, count/has results, final counts).",
-    level_note='Trusted: Coq kernel + vm_compute; the hand-written small-step model of event_bus.go / persistEvent (flat registry; sync.Mutex, RWMutex, WaitGroup, atomic CAS, goroutine creation and recover are modelled as atomic micro-steps); the controller harness (parks goroutines at user-code callbacks, reads goroutine states from runtime.Stack) and the replay of its log on the model (Bus/BusRun.v); the oracle Corr/BusOracle.v; interleavings strictly inside bus code are not forced by the controller.',
-    rule='cases = seeded random programs (threads, handler/filter/hook bodies that call back into the bus, options) run on the real bus under the controller with a seeded random schedule; every run is replayed on the Coq model along the controller log and judged by the oracle; directed witness programs run first; C01: one goroutine, 2-5 or 33-40 event types, all Once/Async/Sequential/filter combinations, SubscribeContext, duplicate functions, bodies that subscribe/unsubscribe/clear/publish to depth 3; non-trivial = every case (each has >= 1 publish reaching a handler or a registry query); distinct = distinct program+schedule',
-)
-PROPS["C02"] = dict(
-    title='Subscribe, unsubscribe and publish stay consistent under every interleaving',
-    theorems="Properties/C02.v",
-    proof_files=["Bus/BusModel.v", "Bus/BusRun.v", "Bus/BusInv.v", "Properties/C02.v"],
-    suites=[dict(name="bus02", mod="core", family="bus02", corr="Corr.BusOracle", check="check_bus", shard=25), dict(name="buscon", mod="core", family="buscon", corr="Corr.BusOracle", check="check_bus", shard=25), dict(name="busstress", mod="core", family="busstress", corr="Corr.CorrStress", check="check_stress02", shard=150)],
-    level_text="Proved in Coq for EVERY schedule of every program (induction over micro-steps): registration identities within a type are unique and never reused (no subscription duplicated, none resurrected); every registry operation and the publish snapshot are single atomic micro-steps with exact effect, so each takes effect at one point between call and return. The must-receive / never-receive / at-most-once / final-count clauses are decided on observed runs by the oracle, which linearises the controller's log, keeps its own flat registry and checks snapshot membership, exactly-once delivery, completeness for live contexts and the final HandlerCount. Tied to the code by controller-driven runs of 2-4 goroutines on 1-3 shared types.",
-    level_note='Trusted: Coq kernel + vm_compute; the hand-written small-step model of event_bus.go / persistEvent (flat registry; sync.Mutex, RWMutex, WaitGroup, atomic CAS, goroutine creation and recover are modelled as atomic micro-steps); the controller harness (parks goroutines at user-code callbacks, reads goroutine states from runtime.Stack) and the replay of its log on the model (Bus/BusRun.v); the oracle Corr/BusOracle.v; interleavings strictly inside bus code are not forced by the controller.',
-    rule='cases = seeded random programs (threads, handler/filter/hook bodies that call back into the bus, options) run on the real bus under the controller with a seeded random schedule; every run is replayed on the Coq model along the controller log and judged by the oracle; directed witness programs run first; C02: 2-4 goroutines x 2-7 operations on 1-3 shared types, random control-point interleavings; non-trivial = every case; distinct = distinct program+schedule',
-)
-PROPS["C03"] = dict(
-    title='Concurrent use of the API is free of data races and deadlocks',
-    theorems="Properties/C03.v",
-    proof_files=["Bus/BusModel.v", "Bus/BusRun.v", "Bus/BusInv.v", "Bus/BusLeaf.v", "Properties/C03.v"],
-    suites=[dict(name="race", mod="core", family="race", corr="Corr.CorrRace", check="check03r", shard=200, race=True, timeout=2400, crash_is_failure=True),
-            dict(name="bus03", mod="core", family="bus03", corr="Corr.BusOracle", check="check03d", shard=25),
-            dict(name="buscon", mod="core", family="buscon", corr="Corr.BusOracle", check="check03d", shard=25), dict(name="waitstress", mod="core", family="waitstress", corr="Corr.CorrStress", check="check_wait", shard=100, timeout=1800)],
-    level_text='Partial. Data-race half: NOT a theorem (the Go memory model is outside the Gallina model, whose micro-steps are atomic); sampled by free-running mixes of every kind of public API call (publish, subscribe, unsubscribe, clear, queries, Wait, Replay, upcast registry, the bundled stores directly, SubscribeWithReplay, the state materializer) from 2-8 goroutines with re-entrant handlers and hooks, under the Go race detector, with a watchdog for global blocking and a count of panics escaping an API call. Deadlock half, proved in Coq on the small-step bus model over every schedule: a Sequential handler mutex has a single owner who still carries the matching deferred unlock; Wait and Shutdown wait exactly on the number of running deliveries; only six kinds of instruction can block at all (handler mutex, store mutex, Wait, the waiter and the select of Shutdown, and the start of an Async+Sequential delivery that is not yet at the head of the queue of its handler - whose head is always an unfinished delivery); no handler mutex is ever orphaned (its recorded holder still carries the deferred unlock), the store-mutex holder can always step, a pending Shutdown always has its waiter, Wait/Shutdown instructions occur only below every delivery frame (for programs whose handlers, filters and hooks do not call them), and - progress - for such programs some goroutine can always step in every reachable state whose handler-mutex waits are acyclic and in which no goroutine has died of an unrecovered panic (the waits of Async+Sequential deliveries for their turn are proved never to close a cycle: C03_progress_mutex_waits_only); and for the programs whose Sequential handlers do not publish (handlers that are not Sequential, filters, hooks and the panic handler may) the acyclicity hypothesis is discharged altogether: the frames of Sequential handlers never nest, whoever waits for a handler mutex holds none, and some goroutine can always step (C03_progress_when_sequential_handlers_do_not_publish); the documented exception (a synchronous Sequential handler whose publish is delivered back to itself) is exhibited as a reachable blocked state. Tied to the code by controller-driven runs (suites bus03, buscon) in which every thread the real bus leaves blocked must be blocked in the model too and must be waiting for a mutex it holds itself.',
-    level_note='Trusted: Coq kernel + vm_compute; the Go race detector (finds only races that the sampled interleavings execute); the hand-written small-step model of event_bus.go and the controller harness (see C01); the watchdog budget of 30 s per case.',
-    rule='race suite: cases = seeded mixes, 2-8 goroutines x 25-75 calls (thorough 40-160), GOMAXPROCS in {1,2,4,16}, store none/memory/SQLite in-memory, Sequential handlers never call back (self-delivery is the documented exception); bus03/buscon: seeded random programs under the controller, three directed programs first (self-delivery, indirect self-delivery, re-entrant subscribe/unsubscribe/clear/publish from handler, filter and hooks); non-trivial = every case; distinct = distinct program',
-)
-PROPS["C04"] = dict(
-    title='A Once handler fires at most once, and exactly once when eligible',
-    theorems="Properties/C04.v",
-    proof_files=["Bus/BusModel.v", "Bus/BusRun.v", "Bus/BusInv.v", "Properties/C04.v"],
-    suites=[dict(name="bus04", mod="core", family="bus04", corr="Corr.BusOracle", check="check_bus", shard=25), dict(name="buscon", mod="core", family="buscon", corr="Corr.BusOracle", check="check_bus", shard=25), dict(name="oncecancel", mod="core", family="oncecancel", corr="Corr.CorrOnce", check="check04x", shard=50), dict(name="busstress", mod="core", family="busstress", corr="Corr.CorrStress", check="check_stress04", shard=150)],
-    level_text="Proved in Coq for EVERY schedule of every program: the number of entries into a Once registration over the whole run is <= 1, and an entry implies its flag was claimed (invariant: entries + deliveries in flight <= claimed flag, preserved by every micro-step incl. panics and async spawns); the claim is reached only after the filter accepted and with a live context, so filtered-out or already-cancelled publishes do not consume it. 'Exactly once when eligible' (liveness) is decided on observed runs by the oracle. Tied to the code by controller-driven runs with 1-3 concurrent publishers, sync/async Once handlers, filters, cancelled contexts. The asynchronous claim/cancel hole (context cancelled after PublishContext returned and before the delivery goroutine of an Async Once handler starts - the usual defer cancel()) is run on one processor against the model on exactly that schedule (suite oncecancel; the defect it showed was repaired by a fix: commit); the synchronous form of the hole (a preemption between two adjacent statements) is REFUTED on the model with a witness schedule and cannot be forced on the real code.",
-    level_note='Trusted: Coq kernel + vm_compute; the hand-written small-step model of event_bus.go / persistEvent (flat registry; sync.Mutex, RWMutex, WaitGroup, atomic CAS, goroutine creation and recover are modelled as atomic micro-steps); the controller harness (parks goroutines at user-code callbacks, reads goroutine states from runtime.Stack) and the replay of its log on the model (Bus/BusRun.v); the oracle Corr/BusOracle.v; interleavings strictly inside bus code are not forced by the controller.',
-    rule='cases = seeded random programs (threads, handler/filter/hook bodies that call back into the bus, options) run on the real bus under the controller with a seeded random schedule; every run is replayed on the Coq model along the controller log and judged by the oracle; directed witness programs run first; C04: 70% Once handlers, half the publishes on cancellable contexts, 1-3 publishers; directed: cancelled-then-eligible, filtered-then-eligible; non-trivial = every case; distinct = distinct program+schedule',
-)
-PROPS["C05"] = dict(
-    title='A panicking handler never harms the publisher or the other handlers',
-    theorems="Properties/C05.v",
-    proof_files=["Bus/BusModel.v", "Bus/BusRun.v", "Bus/BusInv.v", "Properties/C05.v"],
-    suites=[dict(name="bus05", mod="core", family="bus05", corr="Corr.BusOracle", check="check05", shard=25), dict(name="busseq", mod="core", family="busseq", corr="Corr.BusOracle", check="check05", shard=25)],
-    level_text="Proved in Coq: a panic anywhere inside a handler invocation unwinds exactly to that invocation's deferred recover; everything queued behind it (remaining handlers of the publish, once-removal, after hooks, the caller's continuation) is kept; registry, once-flags, wait counter and locks are untouched by the unwinding; then the Sequential lock is released, the panic handler runs exactly once (if set), the completion callback carries the error, an async delivery reaches wg.Done; the wait-counter and lock invariants (C06, C07) hold on every schedule of panicking programs, so Wait returns and a panicking Sequential handler can run again. The panic handler is modelled as user code with a body of its own (it may call back into the bus, e.g. publish the failed event again: theorem C05_panic_handler_step, example C05_retry_from_the_panic_handler); over every schedule of programs in which only handler bodies panic no goroutine ever crashes (C05_handler_panics_never_crash). Tied to the code by controller-driven runs with 60% panicking bodies of every kind/option at random positions, panic handlers with and without a body, and the clause that every thread comes back (the documented self-delivery exception apart); the harness isolates crashes as labels.",
-    level_note='Trusted: Coq kernel + vm_compute; the hand-written small-step model of event_bus.go / persistEvent (flat registry; sync.Mutex, RWMutex, WaitGroup, atomic CAS, goroutine creation and recover are modelled as atomic micro-steps); the controller harness (parks goroutines at user-code callbacks, reads goroutine states from runtime.Stack) and the replay of its log on the model (Bus/BusRun.v); the oracle Corr/BusOracle.v; interleavings strictly inside bus code are not forced by the controller.',
-    rule='cases = seeded random programs (threads, handler/filter/hook bodies that call back into the bus, options) run on the real bus under the controller with a seeded random schedule; every run is replayed on the Coq model along the controller log and judged by the oracle; directed witness programs run first; C05: 1-2 goroutines, 60% of handler bodies end in a panic, all option combinations, repeated publishes, Wait; non-trivial = every case; distinct = distinct program+schedule',
-)
-PROPS["C06"] = dict(
-    title='Wait and Shutdown return only after all asynchronous work has finished',
-    theorems="Properties/C06.v",
-    proof_files=["Bus/BusModel.v", "Bus/BusRun.v", "Bus/BusInv.v", "Properties/C06.v"],
-    suites=[dict(name="bus06", mod="core", family="bus06", corr="Corr.BusOracle", check="check06", shard=25), dict(name="buscon", mod="core", family="buscon", corr="Corr.BusOracle", check="check06", shard=25), dict(name="waitstress", mod="core", family="waitstress", corr="Corr.CorrStress", check="check_wait", shard=100, timeout=1800)],
-    level_text="Proved in Coq for EVERY schedule of every program: the wait counter equals the number of spawned, unfinished async deliveries (the increment is part of the publisher's step); every delivery goroutine carries weight 1 until its wg.Done; Wait - and the goroutine Shutdown waits on - can proceed only when every delivery spawned so far, at any nesting depth, has finished; the store is closed only in the step in which Shutdown returns nil, never on the context-error branch. Tied to the code by controller-driven runs with nested async publishes, Wait at many positions, Shutdown with live and cancelled contexts, a store recording Close.",
-    level_note='Trusted: Coq kernel + vm_compute; the hand-written small-step model of event_bus.go / persistEvent (flat registry; sync.Mutex, RWMutex, WaitGroup, atomic CAS, goroutine creation and recover are modelled as atomic micro-steps); the controller harness (parks goroutines at user-code callbacks, reads goroutine states from runtime.Stack) and the replay of its log on the model (Bus/BusRun.v); the oracle Corr/BusOracle.v; interleavings strictly inside bus code are not forced by the controller.',
-    rule='cases = seeded random programs (threads, handler/filter/hook bodies that call back into the bus, options) run on the real bus under the controller with a seeded random schedule; every run is replayed on the Coq model along the controller log and judged by the oracle; directed witness programs run first; C06: 70% async handlers, handlers publishing further async work, Wait inside and at the end of threads, Shutdown with live/cancelled contexts on persistent buses; non-trivial = every case; distinct = distinct program+schedule',
-)
-PROPS["C07"] = dict(
-    title='Sequential handlers never overlap and process events in publish order',
-    theorems="Properties/C07.v",
-    proof_files=["Bus/BusModel.v", "Bus/BusRun.v", "Bus/BusInv.v", "Properties/C07.v"],
-    suites=[dict(name="bus07", mod="core", family="bus07", corr="Corr.BusOracle", check="check07", shard=25), dict(name="buscon", mod="core", family="buscon", corr="Corr.BusOracle", check="check07", shard=25), dict(name="busstress", mod="core", family="busstress", corr="Corr.CorrStress", check="check_stress07", shard=150)],
-    level_text="Proved in Coq for EVERY schedule of every program: two different actors never hold the lock of the same Sequential registration, and an actor is inside such a handler's body only while holding it (lock-discipline invariant over micro-steps, incl. panics and pending calls). The ordering clause for Async+Sequential handlers (refuted on the model of the original code and reproduced on it by the controller - defect F2, repaired in /repo by ef97bac) is proved for the repaired code's per-handler turn queue, over every schedule: the queue-discipline invariant (C07_turn_queue), deliveries to a handler finish in exactly the order in which they were dispatched (C07_async_sequential_fifo), a delivery starts only when everything dispatched before it has finished (C07_async_sequential_starts_in_turn), and the dispatch step queues the delivery on the publishing goroutine (C07_dispatch_queues_at_end), whose own publishes are sequential. Exactly-once delivery is C01/C02. Tied to the code by controller-driven runs with sync/async Sequential handlers and 1-3 publishers (a delivery that runs out of turn cannot be replayed on the model: disagreement), by the oracle's publish-order clause, and by the free-running busstress suite (per-publisher order at every Sequential handler; bursts to a fresh Async+Sequential handler on one P and on many); the harness itself flags overlapping invocations.",
-    level_note='Trusted: Coq kernel + vm_compute; the hand-written small-step model of event_bus.go / persistEvent (flat registry; sync.Mutex, RWMutex, WaitGroup, atomic CAS, goroutine creation and recover are modelled as atomic micro-steps); the controller harness (parks goroutines at user-code callbacks, reads goroutine states from runtime.Stack) and the replay of its log on the model (Bus/BusRun.v); the oracle Corr/BusOracle.v; interleavings strictly inside bus code are not forced by the controller.',
-    rule='cases = seeded random programs (threads, handler/filter/hook bodies that call back into the bus, options) run on the real bus under the controller with a seeded random schedule; every run is replayed on the Coq model along the controller log and judged by the oracle; directed witness programs run first; C07: 80% Sequential, 60% async, observability on in half the cases so that async deliveries can be held before the lock; directed: the 2-event reordering (the second delivery goroutine is offered the first turn); busstress: free-running publishers, per-publisher order and single-publisher bursts; non-trivial = every case; distinct = distinct program+schedule',
-)
-PROPS["C08"] = dict(
-    title='Cancellation, context propagation and publish hooks behave predictably',
-    theorems="Properties/C08.v",
-    proof_files=["Bus/BusModel.v", "Bus/BusRun.v", "Bus/BusInv.v", "Properties/C08.v"],
-    suites=[dict(name="bus08", mod="core", family="bus08", corr="Corr.BusOracle", check="check_bus", shard=25), dict(name="busseq", mod="core", family="busseq", corr="Corr.BusOracle", check="check_bus", shard=25)],
-    level_text='Proved in Coq: every publish runs observability start, legacy before hook, context-aware before slot, THEN the snapshot, and after the last queued handler the once-removal, legacy after hook, context-aware after hook, observability complete - each exactly once, with or without handlers; a cancelled context stops sync handlers at the last decision before the call, never claims a Once handler, reduces an async delivery to wg.Done; context-aware handlers are entered with the publish context; cancellation is permanent; and at run level, over every schedule of every program: a publish made with an already cancelled context enters no handler at all, ever (C08_precancelled_publish_enters_nothing: invariants on the code of every goroutine and on the entry log). Tied to the code by controller-driven runs over all hook subsets, sync/async/context-aware mixes, cancellation before the call or by any handler/hook/filter body.',
-    level_note='Trusted: Coq kernel + vm_compute; the hand-written small-step model of event_bus.go / persistEvent (flat registry; sync.Mutex, RWMutex, WaitGroup, atomic CAS, goroutine creation and recover are modelled as atomic micro-steps); the controller harness (parks goroutines at user-code callbacks, reads goroutine states from runtime.Stack) and the replay of its log on the model (Bus/BusRun.v); the oracle Corr/BusOracle.v; interleavings strictly inside bus code are not forced by the controller.',
-    rule='cases = seeded random programs (threads, handler/filter/hook bodies that call back into the bus, options) run on the real bus under the controller with a seeded random schedule; every run is replayed on the Coq model along the controller log and judged by the oracle; directed witness programs run first; C08: one goroutine, every subset of the four hook slots, 70% of publishes on cancellable contexts, cancel actions in handler/hook/filter bodies; non-trivial = every case; distinct = distinct program+schedule',
-)
 PROPS["C09"] = dict(
     title='Every publish on a persistent bus is recorded once, before it is delivered',
     theorems="Properties/C09.v",
